@@ -545,6 +545,77 @@ func roundTrips(c *Ctx, r *runner) {
 	}
 }
 
+// farMatch: pictures with more than 2^20 pixels whose tail repeats the pixels P positions earlier, P around
+// the LZ77 window limit 2^20 - 120 (the largest distance whose code 120 + distance still has a prefix symbol
+// below 40); otherwise incompressible content.  Go Encode -> Go Decode only (no specification decode of a
+// megapixel picture); the round trip must be exact.
+func farMatch(c *Ctx, rng *Rand, w, h, P int, palette bool, q, m int) {
+	im := image.NewNRGBA(image.Rect(0, 0, w, h))
+	var pal []color.NRGBA
+	for i := 0; i < 200; i++ {
+		pal = append(pal, color.NRGBA{uint8(rng.U64()), uint8(rng.U64()), uint8(rng.U64()), 255})
+	}
+	n := w * h
+	for i := 0; i < n; i++ {
+		var col color.NRGBA
+		switch {
+		case i >= P:
+			o := (i - P) * 4
+			col = color.NRGBA{im.Pix[o], im.Pix[o+1], im.Pix[o+2], im.Pix[o+3]}
+		case palette:
+			col = pal[rng.Intn(200)]
+		default:
+			col = color.NRGBA{uint8(rng.U64()), uint8(rng.U64()), uint8(rng.U64()), 255}
+		}
+		o := i * 4
+		im.Pix[o], im.Pix[o+1], im.Pix[o+2], im.Pix[o+3] = col.R, col.G, col.B, col.A
+	}
+	s := rtSpec{W: w, H: h, Content: "far-match", Alpha: "opaque", Kind: "nrgba", Quality: q, Method: m, Exact: true}
+	c.D.Evaluations++
+	c.Count(fmt.Sprintf("far-match:%dx%d:P=2^20%+d:palette=%v:q%d:m%d", w, h, P-(1<<20), palette, q, m))
+	file, err := encode(im, s, NewRand(5))
+	if err != nil {
+		c.Count("observation:encode-error")
+		return
+	}
+	line, dec := goDecode(file)
+	rep := map[string]any{"picture": fmt.Sprintf("%dx%d, pixel[i] = pixel[i-P] for i >= P = 2^20%+d, else random (200-colour palette: %v), harness/c01 farMatch", w, h, P-(1<<20), palette), "quality": q, "method": m, "bytes": len(file)}
+	if dec == nil {
+		rep["result"] = line
+		c.Violate("decode-error", "Decode failed on the bytes Encode wrote", rep)
+		return
+	}
+	got := nrgbaPix(dec)
+	if dec.Rect.Dx() != w || dec.Rect.Dy() != h {
+		c.Violate("roundtrip-dimensions", "decoded dimensions differ from the source", rep)
+	} else if !bytes.Equal(got, im.Pix) {
+		first := 0
+		for first < len(got) && got[first] == im.Pix[first] {
+			first++
+		}
+		rep["first_differing_pixel"] = first / 4
+		c.Violate("roundtrip-mismatch", "decoded pixels differ from the source pixels", rep)
+	}
+}
+
+func farMatches(c *Ctx) {
+	rng := c.Rng.Fork()
+	const W20 = 1 << 20
+	if !c.Thorough() {
+		farMatch(c, rng.Fork(), 1024, 1030, W20-60, true, 100, 4)
+		farMatch(c, rng.Fork(), 1024, 1030, W20-119, true, 76, 2)
+		return
+	}
+	for _, P := range []int{W20 - 121, W20 - 120, W20 - 119, W20 - 100, W20 - 60, W20 - 1, W20, W20 + 1} {
+		for _, pal := range []bool{true, false} {
+			farMatch(c, rng.Fork(), 1024, 1030, P, pal, rng.Pick(76, 100), rng.Pick(2, 4, 6))
+		}
+	}
+	farMatch(c, rng.Fork(), 16383, 70, W20-60, true, 100, 4)
+	farMatch(c, rng.Fork(), 70, 16383, W20-119, true, 76, 4)
+	farMatch(c, rng.Fork(), 16383, 70, W20-100, false, 100, 2)
+}
+
 // unpremultiplySweep sends every valid premultiplied (channel, alpha) pair through
 // the *image.RGBA fast path and compares with the colour-model formula.
 func unpremultiplySweep(c *Ctx) {
@@ -650,6 +721,7 @@ func main() {
 		defer r.close()
 		c.D.Rule = "a round trip counts as non-trivial once per distinct signature of what the encoder emitted (transform list with bits, cache on/off, meta image on/off, several groups), as read back by the specification decoder"
 		roundTrips(c, r)
+		farMatches(c)
 		unpremultiplySweep(c)
 		cleanupCases(c)
 	})
